@@ -183,7 +183,7 @@ CHECKS = {
              "every applicable fault kind (EIO, short count, ENOSPC-from-here-on, sticky stream error, open failure; "
              "write-through and buffered stdio models) is injected in its own child. Oracle: no crash/hang/ASan/"
              "closed-stream use; if every call incl. the closes succeeded then files and read results equal the "
-             "fault-free run. Exhaustive per program, sampled over programs (88 quick / 1600 thorough).",
+             "fault-free run. Exhaustive per program, sampled over programs (88 quick / 1200 thorough).",
         note="Single faults plus their sticky/ENOSPC continuation; allocation failure not injected; after the first "
              "reported failure a program only releases and closes, and the torn file is not opened again. The SD "
              "family joined the search after library fixes (DESIGN 8.5); datasets and images stored through the "
@@ -213,7 +213,7 @@ CHECKS = {
              "crosses 2^31 and 2^32; 30..40 open files, SDstart of one file up to a small descriptor limit (getrlimit "
              "seam). Oracle: failure value where the format cannot represent the request, correct read-back where "
              "accepted, canaries intact after every probe, descriptor tables without negative/wrapped/overlapping "
-             "extents (sparse page-wise scan + format reader), files usable after reopen, ASan. 3 000 / 60 000.",
+             "extents (sparse page-wise scan + format reader), files usable after reopen, ASan. 3 000 / 40 000.",
         note="Requests above a documented maximum of the library (not of the format) may be accepted when they then "
              "behave correctly; a name longer than an interface keeps is either refused or stored as a prefix.",
         tech=TECH % ("", "oracle = failure-value table per limit + read-back + canary objects + sparse descriptor scan + sanitizer"),
